@@ -61,10 +61,11 @@ class ACLObservation(AbstractObservation, discriminator="acl"):
         """
         self.where = where
         self.num_rules: int = num_rules
-        self.ip_to_id: Dict[str, int] = {p: i + 2 for i, p in enumerate(ip_list)}
-        self.wildcard_to_id: Dict[str, int] = {p: i + 2 for i, p in enumerate(wildcard_list)}
-        self.port_to_id: Dict[str, int] = {p: i + 2 for i, p in enumerate(port_list)}
-        self.protocol_to_id: Dict[str, int] = {p: i + 2 for i, p in enumerate(protocol_list)}
+        # an entry listed twice keeps its first id (ids stay inside the declared Discrete(len + 2) spaces)
+        self.ip_to_id: Dict[str, int] = {p: i + 2 for i, p in enumerate(dict.fromkeys(ip_list))}
+        self.wildcard_to_id: Dict[str, int] = {p: i + 2 for i, p in enumerate(dict.fromkeys(wildcard_list))}
+        self.port_to_id: Dict[str, int] = {p: i + 2 for i, p in enumerate(dict.fromkeys(port_list))}
+        self.protocol_to_id: Dict[str, int] = {p: i + 2 for i, p in enumerate(dict.fromkeys(protocol_list))}
         self.default_observation: Dict = {
             i: {
                 "position": i,
